@@ -8,6 +8,8 @@
 (* The environment side of the specification is driven by the recorded terminations / truncations (and its    *)
 (* same-step auto-reset rule is compared with the recorded observations); the flags, states and next_state    *)
 (* that learn() received are compared with the loop side.  Clause names: "<slug>: <text>".                     *)
+(* cfg.mode = "auto": vectorised environment; "loop": one plain ParallelEnv that the loop resets itself inside *)
+(* the rollout (a reset event while the environment is finished is the loop's reset, LoopResetTo).             *)
 EXTENDS Rollout, Json, IOUtils, TLCExt
 CONSTANT Diag
 Traces == JsonDeserialize(IOEnv.TRACE_FILE)
@@ -19,26 +21,35 @@ Ev == T.ev[l]
 Check(name, c) == IF c THEN TRUE ELSE (Diag /\ PrintT(<<"FAILCLAUSE", tid, l, name>>) /\ FALSE)
 
 TInit == /\ tid \in 1..Len(Traces) /\ l = 1 /\ hist = <<>>
-         /\ InitWith(1..T.cfg.E, 1..T.cfg.A)
+         /\ InitWith(1..T.cfg.E, 1..T.cfg.A, T.cfg.mode)
 
 At(m, c) == m[c[1]][c[2]]          \* [e][a] matrices of the trace
 
 TReset ==
   /\ Ev.op = "reset"
-  /\ Check("reset-inside-rollout: the environment is reset only between rollouts", dones = <<>>)
   /\ Check("harness-reset-obs: env.reset() returns the first observations of one fresh episode per environment",
            \A e \in Envs : \A a \in Agents : Ev.ep[e][a] = Ev.ep[e][1] /\ Ev.ep[e][a] > ep[e])
-  /\ ResetTo([e \in Envs |-> Ev.ep[e][1]])
-  /\ hist' = <<>>
+  /\ IF Settled
+     THEN \* the reset at the start of an agent's turn
+          /\ Check("reset-inside-rollout: an environment whose episode is running is reset only between rollouts", dones = <<>>)
+          /\ ResetTo([e \in Envs |-> Ev.ep[e][1]])
+          /\ hist' = <<>>
+     ELSE \* "loop" mode: the loop resets the finished environment inside the rollout
+          /\ LoopResetTo([e \in Envs |-> Ev.ep[e][1]])
+          /\ hist' = hist
 
 TStep ==
   /\ Ev.op = "step"
   /\ LET o == [c \in Cols |-> <<At(Ev.term, c) = 1, At(Ev.trunc, c) = 1>>] IN
      /\ Check("harness-ends-together: all agents of a scripted environment end their episode in the same step",
               \A e \in Envs : (\A a \in Agents : Ended(o[<<e, a>>])) \/ (\A a \in Agents : ~Ended(o[<<e, a>>])))
+     /\ Check("loop-reset-missing: the loop resets a finished plain environment before it steps it again", Settled)
      /\ StepWith(o)
-     /\ Check("env-same-step-autoreset: the observation returned by a step is the next one of the running episode, or the first one of the next episode exactly when the step ended the episode",
-              \A c \in Cols : obs'[c] = <<At(Ev.ep, c), At(Ev.k, c)>>)
+     /\ IF mode = "auto"
+        THEN Check("env-same-step-autoreset: the observation returned by a step is the next one of the running episode, or the first one of the next episode exactly when the step ended the episode",
+                   \A c \in Cols : obs'[c] = <<At(Ev.ep, c), At(Ev.k, c)>>)
+        ELSE Check("harness-plain-env-obs: a plain environment returns the next observation of the running episode (also at its end)",
+                   \A c \in Cols : obs'[c] = <<At(Ev.ep, c), At(Ev.k, c)>>)
      /\ hist' = Append(hist, o)
 
 \* the clauses on what learn() received.  D[t] = received flags row t, ND = received next_done
@@ -54,6 +65,7 @@ TLearn ==
          RO(t, c) == IF t <= m THEN At(SID[t], c) ELSE At(NID, c)                    \* received observation ids
          RW(t, c) == { u \in t..(m + 1) : \A j \in (t + 1)..u : RF(j, c) = 0 }       \* window of step t cut at the received flags
      IN
+     /\ Check("loop-reset-missing: the loop resets a finished plain environment before it hands the rollout to learn()", Settled)
      /\ Check("rows: learn() receives one row of flags and one row of states per environment step of the rollout",
               m = n /\ Len(SID) = n /\ n >= 1)
      /\ Check("flag-after-truncation: d[t+1] = 1 where the environment truncated the episode (time limit, no termination) at step t",
@@ -71,10 +83,13 @@ TLearn ==
      /\ Check("states: states[t] is the observation the environment returned before step t",
               \A c \in Cols : \A t \in 1..n : RO(t, c) = sobs[t][c])
      /\ Check("bootstrap-observation: next_state is the observation returned by the last step of the rollout",
-              \A c \in Cols : RO(n + 1, c) = obs[c])
+              \A c \in Cols : RO(n + 1, c) = nxt[c])
      \* the same two statements as the invariants, on the received data alone (episode numbers read from the received observations)
      /\ Check("received-flags-mark-episode-starts: d[t] = 1 exactly where the episode number of the received observations changes",
-              \A c \in Cols : \A t \in 2..(m + 1) : (RF(t, c) = 1) <=> (RO(t, c)[1] # RO(t - 1, c)[1]))
+              \A c \in Cols : /\ \A t \in 2..m : (RF(t, c) = 1) <=> (RO(t, c)[1] # RO(t - 1, c)[1])
+                               \* next_done: in "loop" mode next_state is the terminal observation when next_done = 1
+                               /\ (RF(m + 1, c) = 0 => RO(m + 1, c)[1] = RO(m, c)[1])
+                               /\ ((RF(m + 1, c) = 1 /\ mode = "auto") => RO(m + 1, c)[1] # RO(m, c)[1]))
      /\ Check("received-no-leak: cut at the received flags, no window of the recursion spans two episode numbers",
               \A c \in Cols : \A t \in 1..m : \A u \in RW(t, c) : RO(u, c)[1] = RO(t, c)[1])
      /\ Check("learn-returns: learn() returns without raising", Ev.exc = "")
